@@ -1,8 +1,11 @@
 """C06 — loops emit the last / all iteration values in iteration order, for any count."""
 from __future__ import annotations
 
+import argparse
 import asyncio
 import itertools
+import json
+import os
 import random
 from typing import Any
 
@@ -94,6 +97,77 @@ def build_loop(wf, method: str):
     return ext_in, cstep, out_step
 
 
+CWL_LOOP = """#!/usr/bin/env cwl-runner
+cwlVersion: v1.2
+class: Workflow
+$namespaces:
+  cwltool: "http://commonwl.org/cwltool#"
+requirements:
+  InlineJavascriptRequirement: {{}}
+  ScatterFeatureRequirement: {{}}
+  SubworkflowFeatureRequirement: {{}}
+inputs:
+  i1: {in_type}
+  limit: int
+outputs:
+  o1:
+    type: Any
+    outputSource: {source}/o1
+steps:
+{steps}
+"""
+
+CWL_LOOP_STEP = """{ind}subworkflow:
+{ind}  run:
+{ind}    class: ExpressionTool
+{ind}    inputs:
+{ind}      i1: int
+{ind}      limit: int
+{ind}    outputs:
+{ind}      o1: int
+{ind}    expression: >
+{ind}      ${{return {{'o1': inputs.i1 + 1}};}}
+{ind}  in:
+{ind}    i1: i1
+{ind}    limit: limit
+{ind}  out: [o1]
+{ind}  requirements:
+{ind}    cwltool:Loop:
+{ind}      loopWhen: $(inputs.i1 < inputs.limit)
+{ind}      loop:
+{ind}        i1: o1
+{ind}      outputMethod: {method}
+"""
+
+CWL_SCATTER = """  scatter:
+    run:
+      class: Workflow
+      inputs:
+        i1: int
+        limit: int
+      outputs:
+        o1:
+          type: Any
+          outputSource: subworkflow/o1
+      steps:
+{inner}
+    in:
+      i1: i1
+      limit: limit
+    scatter: i1
+    out: [o1]
+"""
+
+
+def cwl_document(method: str, scattered: bool) -> str:
+    """a cwltool:Loop document modelled on cwltool's tests/loop-ext (ExpressionTool body, no container): the loop counts from the
+    start value up to `limit`; with `scattered` one loop instance per element of the start array"""
+    if scattered:
+        inner = CWL_LOOP_STEP.format(ind="        ", method=method)
+        return CWL_LOOP.format(in_type="int[]", source="scatter", steps=CWL_SCATTER.format(inner=inner))
+    return CWL_LOOP.format(in_type="int", source="subworkflow", steps=CWL_LOOP_STEP.format(ind="  ", method=method))
+
+
 def events_of(instances: list[dict]) -> list[list]:
     """per instance: data p.i (value) for i < n, then the iteration termination p.n"""
     evs = []
@@ -132,14 +206,19 @@ class C06(Property):
     level_text = ("grade A: unbounded theorems — iteration numbering for every interleaving of instances, loop output for any arrival order of "
                   "p.0..p.(n-1) and the iteration termination p.n of any number of concurrent instances (all: index order, last: value n-1, n=0: []/None; "
                   "numeric order for n>=10), no termination before the port's termination token, checklist keeps the combinator step reading while an "
-                  "instance iterates; guards regenerated each run; model compared with the real step classes")
+                  "instance iterates, the closed loop of an instance produces exactly these tokens; guards regenerated each run; model compared with "
+                  "the real step classes, the whole loop network under the real executor, and generated cwltool:Loop documents through the CWL translator")
     level_note = ("Lean kernel, axioms within {propext, Classical.choice, Quot.sound}; trusts the loopguards extractor and the single-FIFO-port "
-                  "abstraction; end-to-end CWL loop documents are not part of this check (step-level K only)")
+                  "abstraction; CWL documents use ExpressionTool bodies (node as JavaScript engine), no cwltool reference run")
     assumptions = ["loop instance tags are non-empty (body outputs have at least two components), instances are pairwise distinct",
                    "the input port of the loop output step is FIFO and its termination token follows every other token (C03)"]
 
     # --------------------------------------------------------------------------------------------
     def explore(self, ctx: Ctx) -> None:
+        import logging
+        from streamflow.log_handler import logger as sf_logger
+        sf_logger.setLevel(logging.ERROR)                          # the CWL runs log every job at INFO
+        logging.getLogger("asyncio").setLevel(logging.CRITICAL)    # cancelled `get` tasks of deliberately hung steps
         seed = ctx.rng.randrange(1 << 30)
         self._lines, self._expect = [], []
         self._network_hung = False
@@ -215,6 +294,13 @@ class C06(Property):
             pool = [0, 1, 2, 3, 10, 11, 12] if i % 3 == 0 else [0, 1, 2, 3, 4]
             yield {"op": "network", "method": rng.choice(["all", "last"]), "instances": [{"p": p, "n": rng.choice(pool)} for p in ps],
                    "oseed": rng.randrange(1 << 30)}
+        # ---- end to end through the CWL front end: generated cwltool:Loop documents, real translator + executor, in-memory db ----
+        cwl_cases = [("last", True, [12, 0, 1, 2, 11, 13], 12), ("all", True, [10, 12, 0, 1, 3], 12), ("all", False, 0, 11), ("last", False, 5, 5)]
+        if wide:
+            cwl_cases += [(rng.choice(["all", "last"]), True, [rng.randint(0, 14) for _ in range(rng.randint(1, 4))], rng.choice([3, 10, 12]))
+                          for _ in range(10)] + [(m, False, s0, 12) for m in ("all", "last") for s0 in (0, 1, 12)]
+        for method, scattered, start, limit in cwl_cases:
+            yield {"op": "cwl", "method": method, "scattered": scattered, "start": start, "limit": limit}
         # ---- LoopCombinatorStep: when does it stop reading a port ----
         for _ in range(120 if wide else 30):
             k = rng.randint(1, 3)
@@ -483,6 +569,89 @@ class C06(Property):
         self._expect.append(((";".join(parts) or "-") + "|term=" + out[-1].value.name, case))
         ctx.case({"case": case, "arrival": words[:12], "out": [sd.untoken(t) for t in out][:3]},
                  ("network", case["method"], tuple(words)), "network")
+
+    # --------------------------------------------------------------------------------------------
+    async def _cwl(self, ctx: Ctx, context, case: dict) -> None:
+        """a generated cwltool:Loop document translated by the real CWLTranslator and run by the real executor (in-process, the
+        check's own in-memory database); workflow outputs against the property, and the arrival order the engine produced at every
+        loop output step against the Lean model"""
+        import cwl_utils.parser
+        import cwl_utils.parser.utils
+        from streamflow.config.config import WorkflowConfig
+        from streamflow.cwl.translator import CWLTranslator
+        from streamflow.workflow.step import LoopOutputStep
+
+        self._n += 1
+        wdir = os.path.join(ctx.scratch, f"cwl-{self._n}")
+        os.makedirs(wdir, exist_ok=True)
+        doc, job = os.path.join(wdir, "loop.cwl"), os.path.join(wdir, "job.yml")
+        with open(doc, "w") as f:
+            f.write(cwl_document(case["method"], case["scattered"]))
+        with open(job, "w") as f:
+            json.dump({"i1": case["start"], "limit": case["limit"]}, f)
+        cfg = {"version": "v1.0", "workflows": {"w": {"type": "cwl", "config": {"file": doc, "settings": job}}}, "path": wdir}
+        cwl_definition = cwl_utils.parser.load_document_by_uri(doc)
+        cwl_inputs = cwl_utils.parser.utils.load_inputfile_by_uri(version=cwl_definition.cwlVersion, path=job,
+                                                                   loadingOptions=cwl_definition.loadingOptions)
+        translator = CWLTranslator(context=context, name=f"c06cwl-{self._n}", output_directory=wdir, cwl_definition=cwl_definition,
+                                   cwl_inputs=cwl_inputs, cwl_inputs_path=job, workflow_config=WorkflowConfig("w", cfg))
+        wf = translator.translate()
+        await wf.save(context.database)
+        run = asyncio.create_task(StreamFlowExecutor(wf).run())
+        _, pending = await asyncio.wait([run], timeout=120)
+        if pending:
+            live = sorted(st.name for st in wf.steps.values() if not st.terminated)
+            run.cancel()
+            try:
+                await run
+            except BaseException:  # noqa: BLE001
+                pass
+            ctx.fail("cwl:hang", f"the CWL loop workflow did not terminate within 120 s; steps still running: {live[:8]}", case)
+            return
+        outputs = run.result()
+
+        def expected(s0: int):
+            vals = list(range(s0 + 1, case["limit"] + 1))
+            return vals if case["method"] == "all" else (vals[-1] if vals else None)
+
+        exp = [expected(s0) for s0 in case["start"]] if case["scattered"] else expected(case["start"])
+        got = outputs.get("o1")
+        if got != exp:
+            counts = [max(0, case["limit"] - s0) for s0 in (case["start"] if case["scattered"] else [case["start"]])]
+            ctx.fail(f"cwl:{case['method']}:wrong-output" + (":count>=11" if max(counts) >= 11 else ""),
+                     f"workflow output o1 = {got!r}, expected {exp!r} (iteration counts {counts})", case)
+        # every loop output step of the translated workflow: observed arrival order -> Lean model
+        for st in wf.steps.values():
+            if not isinstance(st, LoopOutputStep):
+                continue
+            method = "all" if isinstance(st, CWLLoopOutputAllStep) else "last" if isinstance(st, CWLLoopOutputLastStep) else None
+            if method is None:
+                continue
+            in_port, out = next(iter(st.get_input_ports().values())), list(st.get_output_port().token_list)
+            ids, words, src = {}, [], {}
+            for t in in_port.token_list:
+                if isinstance(t, TerminationToken):
+                    words.append(f"t:{t.value.name}")
+                    break
+                if isinstance(t, IterationTerminationToken):
+                    words.append(f"i:{t.tag}")
+                else:
+                    ids[id(t)] = len(ids)
+                    src[(t.tag, repr(t.value))] = ids[id(t)]
+                    words.append(f"d:{t.tag}:{ids[id(t)]}")
+            parts, term = [], "-"
+            for i, t in enumerate(out):
+                if isinstance(t, TerminationToken):
+                    term = t.value.name if i == len(out) - 1 else "MISPLACED"
+                elif isinstance(t, ListToken):
+                    parts.append(f"{t.tag}[" + ",".join(f"{e.tag}:{ids.get(id(e), '?')}" for e in t.value) + "]")
+                else:
+                    cands = [k for (tg, v), k in src.items() if tg.rsplit(".", 1)[0] == t.tag and v == repr(t.value)]
+                    parts.append(f"{t.tag}=" + ("None" if t.value is None else str(max(cands)) if cands else "?"))
+            exp_line = ((";".join(parts) or "-") + "|term=" + term, dict(case, step=st.name))
+            self._lines.append(f"loopout {method} " + " ".join(words))
+            self._expect.append(exp_line)
+        ctx.case({"case": case, "outputs": outputs}, ("cwl", case["method"], case["scattered"], repr(case["start"]), case["limit"]), "cwl")
 
     # --------------------------------------------------------------------------------------------
     async def _checklist(self, ctx: Ctx, context, case: dict) -> None:
